@@ -4,7 +4,13 @@
 // the work directory, driven stand-alone through verif/evmkit): a structured
 // grid of signed transactions, each placed alone in a block, twice in one
 // block, in two consecutive blocks and between two valid transactions, plus raw
-// byte strings as block transactions.  Oracle, from the property text:
+// byte strings as block transactions.  Opening the application is expensive
+// (≈ 130 MB of LevelDB buffers), a block is cheap, so cases — each with senders
+// of its own — are executed in chains on one application instance; the oracle
+// judges the whole block sequence of a chain and compares it with the sequence
+// without the transactions reported invalid, run on another fresh copy of the
+// base state; every finding is re-confirmed with its case alone.  Oracle, from
+// the property text:
 //
 //	(1) OnExecute/OnCommit never panic, whatever the bytes;
 //	(2) every tx of a block is reported in exactly one of ValidTxs / InvalidTxs;
@@ -27,9 +33,7 @@ import (
 	"io/ioutil"
 	"math/big"
 	"os"
-	"runtime"
 	"runtime/debug"
-	"runtime/pprof"
 	"sort"
 	"strings"
 	"sync"
@@ -440,19 +444,9 @@ func (d *driver) itemOf(k kase, id int) *item {
 
 func main() {
 	run := core.Start("C09", "exploration", "XSTATE")
-	if pf := os.Getenv("C09_CPUPROFILE"); pf != "" {
-		f, _ := os.Create(pf)
-		pprof.StartCPUProfile(f)
-		go func() { time.Sleep(150 * time.Second); pprof.StopCPUProfile(); f.Close() }()
-	}
-	// Every application open allocates ≈ 130 MB of zeroed LevelDB buffers (hard-coded cache
-	// size).  With a tiny live heap the runtime hands that memory back to the OS after each
-	// collection and faults it in again for the next open, which is very slow in this VM.  An
-	// untouched ballast raises the heap goal so that freed spans are reused instead.
-	ballast := make([]byte, 1<<30)
-	defer runtime.KeepAlive(ballast)
-	debug.SetGCPercent(100)
-	debug.SetMemoryLimit(7 << 29) // 3.5 GiB backstop
+	// every application open allocates ≈ 130 MB of zeroed LevelDB buffers (hard-coded cache size): collect often
+	debug.SetGCPercent(50)
+	debug.SetMemoryLimit(3 << 30)
 	evmkit.Silence()
 	evmkit.SetAdminCallback(adminCallback)
 	work := run.WorkDir()
@@ -548,7 +542,11 @@ func main() {
 	for i, it := range items {
 		it.k.ID = it.id
 		if i%397 == 0 {
-			d.samples.Add(it.k)
+			k := it.k
+			if len(k.Raw) > 4 {
+				k.Raw = append(append([]string{}, k.Raw[:4]...), fmt.Sprintf("… %d more", len(k.Raw)-4))
+			}
+			d.samples.Add(k)
 		}
 	}
 
